@@ -406,6 +406,9 @@ class CompileThenIndex(object):
                 # a compliance statement with groups, one whose MODULE part names no group at all, one naming another module
                 for compl in ('groups', 'bare', 'other-module'):
                     yield {'sib': block['sib'], 'n': n, 'sibling_first': first, 'ident': 1, 'compl': compl}
+                # the OIDs of the MODULE-IDENTITY and of the MODULE-COMPLIANCE given a plain name first, in the same module
+                yield {'sib': block['sib'], 'n': n, 'sibling_first': first, 'ident': 1, 'compl': 'groups', 'alias': 1}
+                yield {'sib': block['sib'], 'n': n, 'sibling_first': first, 'ident': 1, 'alias': 1}
                 # the vendor root (and with it identity / compliance OIDs below it) written out in full: all arcs as numbers,
                 # or as name(number) pairs - no bare name in the value
                 for spelling in ('numbers', 'pairs'):
@@ -441,6 +444,8 @@ class CompileThenIndex(object):
             ident += ('vendorObj OBJECT-TYPE SYNTAX INTEGER MAX-ACCESS read-only STATUS current DESCRIPTION "d" ::= { vendorRoot 2 }\n'
                       'vendorGroup OBJECT-GROUP OBJECTS { vendorObj } STATUS current DESCRIPTION "d" ::= { vendorRoot 3 }\n'
                       'vendorCompl MODULE-COMPLIANCE STATUS current DESCRIPTION "d" %s\n ::= { vendorRoot 4 }\n' % part)
+        if case.get('alias'):
+            ident = ('identityAlias OBJECT IDENTIFIER ::= { vendorRoot 9 }\ncomplianceAlias OBJECT IDENTIFIER ::= { vendorRoot 4 }\n' + ident)
         body = (sibtext + vendor + ident) if case['sibling_first'] else (vendor + ident + sibtext)
         text = 'VENDOR-MIB DEFINITIONS ::= BEGIN\nIMPORTS %s FROM SNMPv2-SMI%s;\n%sEND\n' % (', '.join(imports), confimp, body)
         base = os.environ.get('VERIF_TMP') or ('/dev/shm' if os.path.isdir('/dev/shm') else None)
@@ -452,7 +457,7 @@ class CompileThenIndex(object):
             comp.addSources(env.DictReader(texts))
             comp.addSearchers(env.StubSearcher(*env.BASE_NAMES))
             res = comp.compile('VENDOR-MIB')
-            sig = 'C18|compile-then-index|sibling=%s' % sib
+            sig = 'C18|compile-then-index|sibling=%s%s' % (sib, '|oids-named-before' if case.get('alias') else '')
             if res.get('VENDOR-MIB') != 'compiled':
                 return 'notcompiled', [('%s|not-compiled' % sig, '%r\n%s' % (getattr(res.get('VENDOR-MIB'), 'error', None), text))], 1
             comp.buildIndex(res)
